@@ -53,6 +53,7 @@ class RaiseSpec:
         self.iff = d.get('iff', False)
         self.ensures = _clauses(d.get('ensures'), default_props)
         self.modifies = d.get('modifies')  # None => same as function
+        self.attrs = {k: ast.parse(v.strip(), mode='eval').body for k, v in (d.get('attrs') or {}).items()}
 
 
 class LoopSpec:
@@ -101,6 +102,8 @@ class FuncSpec:
         self.inline_here = set(d.get('inline', []))
         self.no_inv_ensures = d.get('no_inv_ensures', False)
         self.timeout_ms = d.get('timeout_ms')
+        # named specification expressions (over the pre-state) evaluated in every counter-model
+        self.probes = {k: ast.parse(v.strip(), mode='eval').body for k, v in (d.get('probes') or {}).items()}
 
 
 class Spec:
